@@ -736,6 +736,9 @@ def _list_method(rt, interp, lst, name):
     def count(i, a, k):
         return sum(1 for x in lst if i.truth(i.eq(x, a[0])))
 
+    def sort(i, a, k):
+        lst[:] = _sorted(i, [list(lst)], k)       # in place, stable, same comparisons as sorted()
+
     def clear(i, a, k):
         del lst[:]
 
@@ -747,7 +750,7 @@ def _list_method(rt, interp, lst, name):
         i.raise_py("ValueError", "list.remove(x): x not in list")
 
     fns = {"append": append, "extend": extend, "insert": insert, "reverse": reverse, "pop": pop, "index": index,
-           "copy": copy, "count": count, "clear": clear, "remove": remove}
+           "copy": copy, "count": count, "clear": clear, "remove": remove, "sort": sort}
     if name in fns:
         return Builtin("list." + name, fns[name])
     return MISSING
@@ -1117,7 +1120,8 @@ def install(rt):
     N["types"] = {"ModuleType": Opaque("ModuleType")}
     N["asyncio.events"] = {"AbstractEventLoop": Opaque("AbstractEventLoop")}
     N["asyncio.transports"] = {"BaseTransport": Opaque("BaseTransport")}
-    N["socket"] = {"timeout": rt.builtin_class("TimeoutError"), "gethostbyname": Opaque("gethostbyname")}
+    N["socket"] = {"timeout": rt.builtin_class("TimeoutError"), "gethostbyname": Opaque("gethostbyname"),
+                   "error": rt.builtin_class("OSError"), "gaierror": rt.builtin_class("OSError"), "herror": rt.builtin_class("OSError")}
     def _ensure_future(i, a, k):
         from .objects import Coroutine, Task
         if a and isinstance(a[0], Task):
